@@ -1,0 +1,33 @@
+//go:build verif
+
+package certs
+
+import (
+	"crypto/x509"
+	"time"
+)
+
+// Verification hooks (build tag "verif" only) for the correspondence harness in /verif.
+
+// VerifSetNotAfter changes the recorded expiry of the cached certificate of host
+// (stands in for 240 hours passing). It reports whether a certificate was cached.
+func (ca *PrivateCA) VerifSetNotAfter(host string, t time.Time) bool {
+	cert, ok := ca.certs.Get(host)
+	if !ok {
+		return false
+	}
+	cert.Leaf.NotAfter = t
+	return true
+}
+
+// VerifCACert returns the CA certificate (to build a verification pool).
+func (ca *PrivateCA) VerifCACert() *x509.Certificate { return ca.cert }
+
+// VerifCachedHosts lists the hosts that currently have a cached certificate.
+func (ca *PrivateCA) VerifCachedHosts() []string {
+	var hs []string
+	for h := range ca.certs.Keys() {
+		hs = append(hs, h)
+	}
+	return hs
+}
